@@ -49,7 +49,7 @@ SA1 = b"system:serviceaccount:kube-system:default"
 SA2 = b"system:serviceaccount:ns1:sa1"
 V_USERS = [b"alice", b"-alice", b"system:*", b"-system:*", b"u*", b"-u*", b"*", SA1, b"u", b"-bob",
            b"system:serviceaccount:*", b"-" + SA2]
-Q_USERS = [b"alice", b"bob", b"u", b"u1", b"system:admin", SA1, SA2]
+Q_USERS = [b"alice", b"bob", b"u", b"u1", b"system:admin", SA1, SA2, SA1 + b":extra", SA2 + b":"]
 V_SAS = [(b"kube-system", b"default"), (b"ns1", b"sa1"), (b"", b"x"), (b"ns1", b""), (b"ns1", b"default")]
 V_UGROUPS = [b"g1", b"-g1", b"system:masters", b"-system:masters", b"*", b"-g2", b"g2"]
 Q_UGROUPS = [b"g1", b"g2", b"system:masters", b"system:authenticated"]
@@ -125,7 +125,9 @@ def corpus():
     # users / serviceAccounts table
     sa = [(b"kube-system", b"default")]
     for users, sas in (([], []), ([], sa), ([b"alice"], sa), ([b"-alice"], sa), ([b"*"], sa), ([], [(b"", b"default"), (b"kube-system", b"")])):
-        for u in (b"alice", SA1, b"bob"):
+        # near-miss service-account usernames: extra segment, trailing separator, missing name (seeded C01-g)
+        for u in (b"alice", SA1, b"bob", SA1 + b":extra", SA1 + b":", b"system:serviceaccount:kube-system",
+                  b"system:serviceaccount:kube-system:", b"serviceaccount:kube-system:default"):
             cs.append(mk_case(mk_attrs(user=u), [mk_policy([mk_rule(users=users, sas=sas, **anyres)])]))
     # order: two matching policies, first wins; later policy used when the first does not match; none
     p_pods = mk_policy([mk_rule(verbs=[b"get"], groups=[b"*"], resources=[b"pods", b"*/status"])], b"fc-a", [SERVERS[0]])
